@@ -43,6 +43,7 @@ def run(ctx):
     ctx.each(c11.r11d, ctx, repo)  # the coverage that sets the parameter is per time step: overwrites are converted before they are capped
     ctx.each(c11.r11a, ctx, repo)
     ctx.each(flowalg.process_prologue, ctx, repo, "R13i")
+    ctx.each(r13j, ctx, repo)
     ctx.each(flowalg.accumulator_rule, ctx, repo, "R13g", [("model", "Model.update_pars"), ("model", "Parameter.source_popsize"), ("results", "Result.get_coverage")], 6, "the eligible-people counts")  # the outcome a program set implies is computed from a cache: it must follow every edit of the visible outcomes
 
 
@@ -271,3 +272,42 @@ def r13h(ctx, repo):
             args[c.func.attr] = got_args
     ok = args["get_capacities"] == {"tvec": "%s.t" % me, "dt": "%s.dt" % me, "instructions": "%s.model.program_instructions" % me} and args["get_prop_coverage"] == {"tvec": "%s.t" % me, "dt": "%s.dt" % me, "capacities": "capacities", "num_eligible": "num_eligible", "instructions": "%s.model.program_instructions" % me}
     ctx.check(ok, "R13h", fi, fi.node, "reported from the run's own time vector, step, instructions, capacities and eligible counts", "Result.get_coverage does not call get_capacities / get_prop_coverage with the result's t, dt, the model's instructions and the capacities / eligible counts computed here: %s" % args, stmt_text="arguments")
+
+
+def ancestors(n):
+    p = getattr(n, "_parent", None)
+    while p is not None:
+        yield p
+        p = getattr(p, "_parent", None)
+
+
+def r13j(ctx, repo):
+    ctx.rule("R13j", "the number of people a number-type program parameter is converted with is the current one: Parameter.source_popsize memoises its result per time index, and the first index is evaluated twice with the initial junction flush in between (update_pars, flush_junctions, update_pars) - so Model.process clears that memo for every parameter of every population after flush_junctions() and before the second update_pars(); otherwise, in a model that is initialised through a junction, every such parameter is converted with the pre-flush (empty) source compartments at the first time point")
+    sp = repo.func("model", "Parameter.source_popsize")
+    me = sp.params[0]
+    cached = [r for r in own_nodes(sp.node) if isinstance(r, ast.Return) and isinstance(r.value, ast.Attribute) and "cache" in r.value.attr]
+    if not cached:
+        ctx.ok("R13j", sp, "source_popsize is not memoised")
+        return
+    key = None
+    for t, pol in guards_of(cached[0], stop=sp.node):
+        for x in ast.walk(t):
+            if isinstance(x, ast.Attribute) and isinstance(x.value, ast.Name) and x.value.id == me and "cache" in x.attr:
+                key = x.attr
+    ctx.require(key is not None, "R13j: the memo key of Parameter.source_popsize was not recognised")
+    pr = repo.func("model", "Model.process")
+    cfg = K.cfg(repo, pr)
+    fl = [enclosing_stmt(c) for c in own_nodes(pr.node) if isinstance(c, ast.Call) and isinstance(c.func, ast.Attribute) and c.func.attr == "flush_junctions"]
+    ups = [enclosing_stmt(c) for c in own_nodes(pr.node) if isinstance(c, ast.Call) and isinstance(c.func, ast.Attribute) and c.func.attr == "update_pars"]
+    ctx.require(len(fl) == 1 and ups, "R13j: flush_junctions / update_pars calls not found in Model.process")
+    after = [u for u in ups if u.lineno > fl[0].lineno and any(u is b for b in fl[0]._parent.body)]
+    ctx.require(after, "R13j: no update_pars() after flush_junctions() in the same block")
+    clr = [s_ for s_ in ast.walk(pr.node) if isinstance(s_, ast.Assign) and isinstance(s_.targets[0], ast.Attribute) and s_.targets[0].attr == key and isinstance(s_.value, ast.Constant) and s_.value.value is None]
+    ok = len(clr) >= 1
+    if ok:
+        c = clr[0]
+        loops = [a for a in ancestors(c) if isinstance(a, ast.For)]
+        its = sorted(ast.unparse(l.iter) for l in loops)
+        top = loops[-1] if loops else c
+        ok = len(loops) == 2 and its[0].endswith(".pars") and its[1].endswith(".pops") and fl[0].lineno < top.lineno < after[0].lineno and any(top is b for b in fl[0]._parent.body) and not any(isinstance(a, ast.If) for a in ancestors(c) if a is not fl[0]._parent and getattr(a, "lineno", 0) > fl[0].lineno)
+    ctx.check(ok, "R13j", pr, clr[0] if clr else fl[0], "the source-popsize memo is cleared between the initial flush and the second parameter update", "Model.process does not clear `%s` for every parameter of every population between flush_junctions() and the following update_pars(): at the first time point number-type program parameters are converted with the source compartment sizes from before the flush" % key, stmt_text="popsize-memo-cleared")
